@@ -148,12 +148,15 @@ theorem AStat.abs_forget {s : AStat d} {xs : List (V d)} (h : s.Abs xs) (x : V d
     exact ⟨by simp [hn, h1'], rfl, rfl⟩
 
 
-/-- `MvGaussian::ln_f_stat` (`mvg.rs:503-521`); `sum_x / n` and `(sum_x sum_xᵀ) / n` written `n⁻¹ • _` -/
+/-- `MvGaussian::ln_f_stat` (`mvg.rs:503-524`) with its early return `0.0` on the empty statistic;
+    `sum_x / n` and `(sum_x sum_xᵀ) / n` written `n⁻¹ • _` -/
 noncomputable def AMvg.lnFStat (g : AMvg d) (s : AStat d) : ℝ :=
-  let n : ℝ := s.n
-  let xbar : V d := n⁻¹ • s.sumx
-  let sigmaHat : Mx d := s.sumxsq - n⁻¹ • vecMulVec s.sumx s.sumx
-  (lnFStatCore s.n d (⟨cholLnDetA g.L⟩ : R) ⟨quadA g.inv (xbar - g.mu)⟩ ⟨trace (g.inv * sigmaHat)⟩).val
+  if s.n = 0 then ((0.0 : R)).val
+  else
+    let n : ℝ := s.n
+    let xbar : V d := n⁻¹ • s.sumx
+    let sigmaHat : Mx d := s.sumxsq - n⁻¹ • vecMulVec s.sumx s.sumx
+    (lnFStatCore s.n d (⟨cholLnDetA g.L⟩ : R) ⟨quadA g.inv (xbar - g.mu)⟩ ⟨trace (g.inv * sigmaHat)⟩).val
 
 theorem sum_outer_center (xs : List (V d)) (μ : V d) :
     (xs.map fun x => vecMulVec (x - μ) (x - μ)).sum
@@ -712,6 +715,8 @@ theorem stat_ofData_bridge (xs : List (V d)) :
 
 theorem ln_f_stat_bridge (g : AMvg d) (s : AStat d) : (g.toExec.ln_f_stat s.toExec).val = g.lnFStat s := by
   simp only [MvGaussian.ln_f_stat, AMvg.toExec, AStat.toExec, AMvg.lnFStat, length_toVec]
+  split_ifs with h0
+  · rfl
   have e0 : (RealLike.ofNatR s.n : R) = ⟨(s.n : ℝ)⟩ := rfl
   rw [e0, vdivs_toVec, outer_toVec, mdivs_toMat, msub_toMat, vsub_toVec, matMul_toMat]
   congr 2
@@ -744,8 +749,9 @@ theorem posterior_bridge (p : ANiw d) (hp : p.Valid) (s : AStat d) :
       show 0 < p.k + (s.n : ℝ); have := hp.1; positivity
     have hdf : d ≤ (p.postParams (↑s.n) s).df := by
       show d ≤ p.df + s.n; have := hp.2; omega
-    have hle : RealLike.le (⟨(p.postParams (↑s.n) s).k⟩ : R) (0.0 : R) = false := by
-      rw [R.le_false_iff, zero_val]; exact not_le.mpr hk
+    have hle : RealLike.gt (⟨(p.postParams (↑s.n) s).k⟩ : R) (0.0 : R) = true := by
+      show RealLike.lt (0.0 : R) _ = true
+      rw [R.lt_iff, zero_val]; exact hk
     have hsq : isSquare (toMat (p.postParams (↑s.n) s).scale) = true := by
       simp [isSquare, nrows, ncols_toMat]
     simp [NormalInvWishart.new, NormalInvWishart.validate_params, hle, hsq, nrows, ANiw.toExec, not_lt.mpr hdf]
